@@ -24,7 +24,7 @@ def main(tier):
     ck.assumptions += ["residual / reconstruction ratios come from the trusted long-double oracle (harness/oracle.h)",
                        "matrices are generated structurally nonsingular and well conditioned; index width 32 bit, pthread build"]
     quick = tier == "quick"
-    apicheck.run_histories(ck, ["mat", "vals", "gssv", "destroy"], 4, 60 if quick else 600, rng,
+    apicheck.run_histories(ck, ["mat", "vals", "gssv", "destroy"], 4, 80 if quick else 800, rng,
                            precs=("d", "s", "z", "c"), threads=(1, 2, 3, 4, 8, 16), nmax=24 if quick else 60, pert=30)
     return ck.finish()
 
